@@ -261,6 +261,8 @@ func (server *SugarDB) setValues(ctx context.Context, entries map[string]interfa
 			// A value written over an entry that has already expired is a new key: it must not inherit the old expiry time.
 			if expireAt != (time.Time{}) && expireAt.Before(server.clock.Now()) {
 				expireAt = time.Time{}
+				// ... and it is not a volatile key any more.
+				server.dropVolatileKey(database, key)
 			}
 		}
 		server.store[database][key] = internal.KeyData{
@@ -295,6 +297,30 @@ func (server *SugarDB) setValues(ctx context.Context, entries map[string]interfa
 	}(ctx, entries)
 
 	return nil
+}
+
+// dropVolatileKey takes a key that no longer has an expiry time out of the volatile-key index and
+// out of the caches that only hold volatile keys. The caller holds the store lock.
+func (server *SugarDB) dropVolatileKey(database int, key string) {
+	server.keysWithExpiry.rwMutex.Lock()
+	defer server.keysWithExpiry.rwMutex.Unlock()
+	server.keysWithExpiry.keys[database] = slices.DeleteFunc(server.keysWithExpiry.keys[database], func(k string) bool {
+		return k == key
+	})
+	switch strings.ToLower(server.config.EvictionPolicy) {
+	case constants.VolatileLFU:
+		if cache := server.lfuCache.cache[database]; cache != nil {
+			cache.Mutex.Lock()
+			cache.Delete(key)
+			cache.Mutex.Unlock()
+		}
+	case constants.VolatileLRU:
+		if cache := server.lruCache.cache[database]; cache != nil {
+			cache.Mutex.Lock()
+			cache.Delete(key)
+			cache.Mutex.Unlock()
+		}
+	}
 }
 
 func (server *SugarDB) setExpiry(ctx context.Context, key string, expireAt time.Time, touch bool) {
